@@ -191,6 +191,16 @@ def explore(ctx):
                 for b in ('', '$'):
                     wf.append(a + c + b + r)
                     wf.append(a + c.lower() + b + r)
+    # labels that happen to be names of built-in functions (LOG10, ATAN2, ...): labels all the same, in every spelling
+    from hotxlfp import formulas as _formulas
+    import re as _re
+    for fnm in sorted(_formulas.supported()):
+        m_ = _re.match(r'([A-Z]+)([0-9]+)\Z', fnm)
+        if m_:
+            for a in ('', '$'):
+                for b in ('', '$'):
+                    wf.append(a + m_.group(1) + b + m_.group(2))
+                    wf.append(a + m_.group(1).lower() + b + m_.group(2))
     # 4. malformed stream
     bad = ['', 'A', '1', 'A0', 'A01', 'A00', '$A$0', 'A1\n', 'A1 ', ' A1', 'A 1', '$$A1', 'A$$1', 'A1$', '$1', 'A-1',
            'A1B', 'A1B2', 'A:1', u'\xe91', u'A٣', u'A１', u'Α' + '1', 'A1\r', 'A1\x0b', '\nA1', 'A1\n\n',
